@@ -41,7 +41,14 @@ def leg_a(ctx):
         r = tlc.run('BlobWrite', tlc.make_cfg(constants=small, invariants=[w]), ctx, coverage=False, timeout=600, label=w, workers=4)
         if w not in r.violated:
             raise MachineryError(f'reachability witness {w} not reached')
-    ctx.leg('A', runs=[r[0] for r in runs], safety=SAFETY, liveness=LIVE, witnesses_reached=WITNESSES)
+    # control of the liveness checking itself: without fairness (the event loop never runs a queued callback) the same
+    # properties must be refuted
+    r = tlc.run('BlobWrite', tlc.make_cfg(spec='SpecUnfair', constants=small, properties=LIVE), ctx, coverage=False, timeout=600,
+                label='unfair', workers=4)
+    if '<temporal>' not in r.violated:
+        raise MachineryError('liveness control failed: without fairness the liveness properties should be refuted')
+    ctx.leg('A', runs=[r[0] for r in runs], safety=SAFETY, liveness=LIVE, witnesses_reached=WITNESSES,
+            liveness_control='SpecUnfair refutes ' + ', '.join(v for v in r.violated if v != '<temporal>'))
 
 
 # --------------------------------------------------------------------------------------------- real blob driver
